@@ -68,8 +68,8 @@ func vEvalUpdate(text string, item, vals map[string]*types.Item) bool {
 	return EvalUpdate(upd, env).Type() != ObjectTypeError
 }
 
-var vCondPositions = []string{"W = :v", ":v = W", "attribute_exists(W)", "W BETWEEN :v AND :v", "W IN (:v)", "begins_with(W, :v)", "size(W) > :n", "NOT W = :v", "a = :v AND W <> :v", "W.k = :v", "W[0] = :v", "m.W = :v"}
-var vUpdPositions = []string{"SET W = :v", "SET a = W", "REMOVE W", "ADD W :n", "SET a = if_not_exists(W, :v)", "SET W.k = :v", "REMOVE W[0]"}
+var vCondPositions = []string{"W = :v", "W.k = :v", ":v = W", "W[0] = :v", "attribute_exists(W)", "W BETWEEN :v AND :v", "W IN (:v)", "begins_with(W, :v)", "size(W) > :n", "NOT W = :v", "a = :v AND W <> :v", "m.W = :v"}
+var vUpdPositions = []string{"SET W = :v", "SET W.k = :v", "SET a = W", "REMOVE W", "REMOVE W[0]", "ADD W :n", "SET a = if_not_exists(W, :v)"}
 
 func vSubst(template, word string) string {
 	out := ""
